@@ -59,6 +59,15 @@ Theorem C09_valid_opts_stored_suffice : forall csem mp mo fs,
 Proof. exact c09_stored_valid_inputs. Qed.
 Print Assumptions C09_valid_opts_stored_suffice.
 
+(* ... and both hypotheses on the inputs follow from "every input FILE passes File.Validate() under the
+   options stored on it, not by SkipAll" ([views f v]: v is f as File.Validate sees it, with whatever batch
+   numbers, batch controls and file control f holds) *)
+Theorem C09_valid_opts_files : forall csem mp mo fs,
+  input_files_valid csem gen_tables mp mo fs ->
+  inputs_valid_o csem gen_tables mp mo fs /\ inputs_header_valid fs.
+Proof. exact c09_input_files_valid_hyps. Qed.
+Print Assumptions C09_valid_opts_files.
+
 Theorem C09_opts_relax_only : forall csem o o' eos b,
   (forall i, oflag i o = true -> oflag i o' = true) ->
   validate_batch_o csem gen_tables (mkvb o eos b) = AR.ROk -> validate_batch_o csem gen_tables (mkvb o' eos b) = AR.ROk.
@@ -85,13 +94,14 @@ Print Assumptions C09_opts_file_batches.
    (CheckTransactionCode on the record); MaxLines 7 forces an overflow file.  The hypotheses hold;
    without the options the inputs fail (RAscending, RClass, header) *)
 Theorem C09_valid_opts_example :
+  input_files_valid ex_csem gen_tables xo_mp xo_mo xo_files /\
   (inputs_valid_o ex_csem gen_tables xo_mp xo_mo xo_files /\ inputs_header_valid xo_files /\ inputs_stay xo_files)
   /\ length (merge_files_o xo_files xo_conds) = 2%nat
   /\ forallb (fun g => file_valid_o ex_csem gen_tables (m_ofile gen_tables xo_mp xo_mo g)) (merge_files_o xo_files xo_conds) = true
   /\ header_ok None xo_origin xo_dest = false.
 Proof.
-  exact (conj ex_opts_hyps (conj (f_equal (@length _) (proj1 ex_opts_outputs))
-        (conj (proj1 (proj2 ex_opts_outputs)) (proj2 (proj2 ex_opts_needed_by_inputs))))).
+  exact (conj ex_opts_files_valid (conj ex_opts_hyps (conj (f_equal (@length _) (proj1 ex_opts_outputs))
+        (conj (proj1 (proj2 ex_opts_outputs)) (proj2 (proj2 ex_opts_needed_by_inputs)))))).
 Qed.
 
 (* the conclusion speaks about the carried options: every output file of the example fails
